@@ -17,6 +17,9 @@ FAULT_OUT = ['nan', 'pinf', 'ninf', 'warn', 'exc', 'zero']
 WRITE_MODES = ['inplace', 'inplace', 'inplace', 'list-attr', 'list-item', 'replace_values']
 
 
+EXC_CAUSE = {'exc': 'Boom', 'excse': 'SolutionError'}     # raising outcomes / hook faults -> class of the chained original
+
+
 class Boom(Exception):
     pass
 
@@ -72,6 +75,9 @@ def make_model_class():
         def _fault(self, kind, t):
             if kind == 'exc':
                 raise Boom('hook')
+            if kind == 'excse':
+                from fsic.exceptions import SolutionError
+                raise SolutionError('raised by the hook itself')     # an exception of the solver's own class is still *wrapped and chained*
             if kind == 'warn':
                 np.log(self._X[t] * 0.0)
 
@@ -99,6 +105,9 @@ def make_model_class():
                 arr = d['_' + name]
                 if o == 'exc':
                     raise Boom('pass')
+                if o == 'excse':
+                    from fsic.exceptions import SolutionError
+                    raise SolutionError('raised inside the pass')
                 if o == 'warn':
                     val = np.log(self._X[t] * 0.0)   # RuntimeWarning: divide by zero -> -inf
                 else:
@@ -146,8 +155,8 @@ def ref_solve_t(script, start, check, *, min_iter, max_iter, tol, failures, erro
         return done(kind='exc', value='SolutionError', status='unchanged', iterations='unchanged', nothing_changed=True)
     out['befores'] = 1
     strict = errors == 'raise' and cfe
-    if before_fault == 'exc' or (before_fault == 'warn' and strict):
-        return done(kind='exc', value='SolutionError', cause='Boom' if before_fault == 'exc' else 'RuntimeWarning', status=None, iterations=None)
+    if before_fault in EXC_CAUSE or (before_fault == 'warn' and strict):
+        return done(kind='exc', value='SolutionError', cause=EXC_CAUSE.get(before_fault, 'RuntimeWarning'), status=None, iterations=None)
     k = 0
     for k in range(1, max_iter + 1):
         pair = script[k - 1] if k - 1 < len(script) else ('same', 'same')
@@ -155,8 +164,8 @@ def ref_solve_t(script, start, check, *, min_iter, max_iter, tol, failures, erro
         prev = list(view)
         # apply the pass, statement by statement
         for name, o in zip(('A', 'B'), pair):
-            if o == 'exc':
-                return done(kind='exc', value='SolutionError', cause='Boom', status='E' if errors == 'raise' else None,
+            if o in EXC_CAUSE:
+                return done(kind='exc', value='SolutionError', cause=EXC_CAUSE[o], status='E' if errors == 'raise' else None,
                             iterations=k if errors == 'raise' else None)
             if o == 'warn' and strict:
                 # the warning-producing statement does not store its result
@@ -182,8 +191,8 @@ def ref_solve_t(script, start, check, *, min_iter, max_iter, tol, failures, erro
         if k >= min_iter and all(abs(a - b) < tol for a, b in zip(new, prev)):
             out['afters'] = 1
             out['after_iteration'] = k
-            if after_fault == 'exc' or (after_fault == 'warn' and strict):
-                return done(kind='exc', value='SolutionError', cause='Boom' if after_fault == 'exc' else 'RuntimeWarning', status=None, iterations=None)
+            if after_fault in EXC_CAUSE or (after_fault == 'warn' and strict):
+                return done(kind='exc', value='SolutionError', cause=EXC_CAUSE.get(after_fault, 'RuntimeWarning'), status=None, iterations=None)
             return done(kind='ret', value=True, status='.', iterations=k)
     if failures == 'raise':
         return done(kind='exc', value='NonConvergenceError', cause=None, status='F', iterations=max_iter)
